@@ -8,10 +8,12 @@ import (
 	"fmt"
 	"go/ast"
 	"go/parser"
+	"go/printer"
 	"go/token"
 	"os"
 	"path/filepath"
 	"sort"
+	"strconv"
 	"strings"
 
 	_ "github.com/smart-core-os/sc-api/go/traits"
@@ -158,6 +160,36 @@ func allTriples() (map[string][]Triple, []string) {
 	return out, skipped
 }
 
+// methodsOutsideTriples lists the methods of a service that belong to no triple, so that the notes show
+// nothing register-like is overlooked; a Get<R>+Pull<R>[s] pair that has an Update<R> can never be in
+// this list (triplesOf either returns it or reports it as skipped).
+func methodsOutsideTriples(svc string, ts []Triple) string {
+	var sd protoreflect.ServiceDescriptor
+	protoregistry.GlobalFiles.RangeFiles(func(fd protoreflect.FileDescriptor) bool {
+		for i := 0; i < fd.Services().Len(); i++ {
+			if string(fd.Services().Get(i).Name()) == svc {
+				sd = fd.Services().Get(i)
+			}
+		}
+		return true
+	})
+	if sd == nil {
+		return ""
+	}
+	in := map[string]bool{}
+	for _, t := range ts {
+		in[string(t.Get.Name())], in[string(t.Update.Name())], in[string(t.Pull.Name())] = true, true, true
+	}
+	var rest []string
+	for j := 0; j < sd.Methods().Len(); j++ {
+		if n := string(sd.Methods().Get(j).Name()); !in[n] {
+			rest = append(rest, n)
+		}
+	}
+	sort.Strings(rest)
+	return strings.Join(rest, ", ")
+}
+
 // Server is a model server / memory device type found in pkg/trait/<Pkg>.
 type Server struct {
 	Pkg      string            // onoffpb
@@ -189,6 +221,14 @@ func exprString(fset *token.FileSet, e ast.Expr) string {
 		return "[]" + exprString(fset, x.Elt)
 	}
 	return fmt.Sprintf("%T", e)
+}
+
+func srcText(fset *token.FileSet, n ast.Node) string {
+	var b strings.Builder
+	if err := printer.Fprint(&b, fset, n); err != nil {
+		return fmt.Sprintf("%T", n)
+	}
+	return strings.Join(strings.Fields(b.String()), " ")
 }
 
 func paramSig(fset *token.FileSet, fd *ast.FuncDecl) string {
@@ -289,20 +329,28 @@ func eqOptions(fset *token.FileSet, files []*ast.File) (map[string]string, error
 						case "WithMessageEquivalence", "WithEquivalence":
 							kind := ""
 							ast.Inspect(ac, func(m ast.Node) bool {
-								if s, ok := m.(*ast.SelectorExpr); ok {
-									switch s.Sel.Name {
-									case "FloatValueApprox":
-										kind = "approx"
-									case "Equal":
-										if kind == "" {
-											kind = "exact"
+								if c2, ok := m.(*ast.CallExpr); ok {
+									if s, ok := c2.Fun.(*ast.SelectorExpr); ok && s.Sel.Name == "FloatValueApprox" {
+										var lits []string
+										for _, la := range c2.Args {
+											lits = append(lits, srcText(fset, la))
 										}
+										kind = "approx(" + strings.Join(lits, ",") + ")"
 									}
+								}
+								if s, ok := m.(*ast.SelectorExpr); ok && s.Sel.Name == "Equal" && kind == "" {
+									kind = "exact"
 								}
 								return true
 							})
 							if kind == "" {
-								err = fmt.Errorf("DefaultModelOptions: equivalence of %s is not one the check knows (cmp.Equal with or without FloatValueApprox)", id.Name)
+								// a comparer the source reader does not understand: the real one is taken out of
+								// the constructed server and evaluated (oracle table), see comparer.go
+								var as []string
+								for _, la := range ac.Args {
+									as = append(as, srcText(fset, la))
+								}
+								kind = "custom:" + strings.Join(as, ",")
 							}
 							out[res] = kind
 						}
@@ -452,7 +500,9 @@ func scanServers(repo string) ([]Server, []string, error) {
 type Target struct {
 	Server Server
 	Triple Triple
-	Eq     string // "none" | "exact" | "approx"
+	Eq     string // "none" | "exact" (the model's own Pull compares with cmp.Equal) | "oracle" (the resource.Value carries a comparer)
+	EqSrc  string // what the source text says: "none" | "exact" | "approx(f,m)" | "custom:<expr>"
+	Tols   []float64 // float tolerances the translator found in the source (margins and fractions of FloatValueApprox)
 }
 
 func (t Target) Key() string { return t.Server.Key() + "/" + t.Triple.ID() }
@@ -477,25 +527,51 @@ func discover() ([]Target, []string, error) {
 	var out []Target
 	for _, s := range servers {
 		for _, svc := range s.Services {
+			// a Get/Update/Pull group of a discovered server's service that does not have the shape the
+			// driver knows is NOT silently left out: the run stops until the driver is taught about it
+			for _, sk := range skipped {
+				if strings.HasPrefix(sk, svc+".") {
+					return nil, nil, fmt.Errorf("%s: service %s has a Get/Update/Pull group the C14 driver does not cover: %s (extend harness/c14/scan.go triplesOf)", s.Key(), svc, sk)
+				}
+			}
+			if rest := methodsOutsideTriples(svc, triples[svc]); rest != "" {
+				notes = append(notes, fmt.Sprintf("%s: methods of %s outside Get/Update/Pull triples (not C14's): %s", s.Key(), svc, rest))
+			}
 			for _, t := range triples[svc] {
 				if s.Wrap[svc] == "" || s.Router[svc] == "" {
 					return nil, nil, fmt.Errorf("%s: no Wrap/New...Router for service %s", s.Key(), svc)
 				}
-				eq := "none"
+				src := "none"
 				for _, cand := range []string{strings.ToLower(t.R), strings.ToLower(string(t.Resource.Name()))} {
 					if k, ok := s.Eq[cand]; ok && s.Type == "ModelServer" {
-						eq = k
+						src = k
 					}
 				}
-				if s.Type == "ModelServer" && s.PullEq[string(t.Pull.Name())] && eq == "none" {
+				eq := "none"
+				if s.Type == "ModelServer" && s.PullEq[string(t.Pull.Name())] {
 					eq = "exact"
 				}
-				out = append(out, Target{Server: s, Triple: t, Eq: eq})
+				tg := Target{Server: s, Triple: t, Eq: eq, EqSrc: src, Tols: tolerancesOf(src)}
+				out = append(out, tg)
 			}
 		}
 	}
 	sort.Slice(out, func(i, j int) bool { return out[i].Key() < out[j].Key() })
 	return out, notes, nil
+}
+
+// tolerancesOf extracts the numeric literals of an "approx(f,m)" source reading.
+func tolerancesOf(src string) []float64 {
+	var out []float64
+	if !strings.HasPrefix(src, "approx(") {
+		return nil
+	}
+	for _, a := range strings.Split(strings.TrimSuffix(strings.TrimPrefix(src, "approx("), ")"), ",") {
+		if f, err := strconv.ParseFloat(strings.TrimSpace(a), 64); err == nil && f > 0 {
+			out = append(out, f)
+		}
+	}
+	return out
 }
 
 // goType is the Go type expression of a message of the sc-api module.
